@@ -19,7 +19,7 @@ RULE = ('histories: 2-3 initial values (AnsiString and AnsiStr) followed by 3-12
 ASSUMPTIONS = ['a step that raises is skipped here (error discipline and atomic failure are C09); a history is abandoned after an '
                'undocumented exception (reported by C09)']
 
-CFG = gen.Cfg(esc=False, odd=0.12, invalid=True, incomplete=False, max_ops=2, max_text=8, rich=True, min_text=2)
+CFG = gen.Cfg(esc=True, odd=0.12, invalid=True, incomplete=False, max_ops=2, max_text=8, rich=True, min_text=2)
 
 
 def freeze_settings(x):
@@ -147,7 +147,7 @@ def eval_history(case):
     return o
 
 
-CFG_TWIN = gen.Cfg(esc=False, odd=0.1, invalid=True, incomplete=False, max_ops=2, alphabet='aab  \t-', min_text=2, max_text=9, rich=True,
+CFG_TWIN = gen.Cfg(esc=True, odd=0.1, invalid=True, incomplete=False, max_ops=2, alphabet='aab  \t-', min_text=2, max_text=9, rich=True,
                     cls_s=0.0, ansi_ctor=False)
 TWIN_NAMES = ['clip', 'ljust', 'rjust', 'center', 'zfill', 'replace', 'replace', 'strip', 'strip', 'lstrip', 'rstrip', 'rstrip', 'rmprefix',
               'rmsuffix', 'rmsuffix', 'case', 'expandtabs', 'expandtabs']
